@@ -69,24 +69,27 @@ Theorem C05_lhs_forms : forall x r, wf_id x = true -> notin "=" r = true ->
 Proof. exact lhs_forms. Qed.
 Print Assumptions C05_lhs_forms.
 
-(* the third notation dx/dt = r: a TypeError on Python 3.12 until repair D154 (model switch leib = false: CRaises, checked
-   by the correspondence run); with the repair it classifies like the other two, provided x does not end in `d` *)
-Theorem C05_lhs_leibniz_fixed : forall x r, wf_id x = true -> lastc "d" x <> "d" -> notin "=" r = true ->
-  classify_gen true ("d" :: x ++ s2l "/dt = " ++ r) = CEqn {| e_lhs := x; e_key := x; e_de := true; e_rhs := r; e_asg := ["="] |}.
+(* the third notation dx/dt = r (repair D154 is in the tree): it classifies like the other two, provided x does not end in `d` *)
+Theorem C05_lhs_leibniz : forall x r, wf_id x = true -> lastc "d" x <> "d" -> notin "=" r = true ->
+  classify ("d" :: x ++ s2l "/dt = " ++ r) = CEqn {| e_lhs := x; e_key := x; e_de := true; e_rhs := r; e_asg := ["="] |}.
 Proof. exact lhs_leibniz. Qed.
-Print Assumptions C05_lhs_leibniz_fixed.
+Print Assumptions C05_lhs_leibniz.
 
+(* ... `dd/dt` contains the text d/dt and is taken for the first notation: empty variable name (loud downstream) *)
 Theorem C05_lhs_leibniz_refuted_dd :
-  classify_gen true (s2l "dd/dt = r") = CEqn {| e_lhs := []; e_key := []; e_de := true; e_rhs := s2l "r"; e_asg := ["="] |}.
+  classify (s2l "dd/dt = r") = CEqn {| e_lhs := []; e_key := []; e_de := true; e_rhs := s2l "r"; e_asg := ["="] |}.
 Proof. exact lhs_leibniz_refuted_dd. Qed.
 Print Assumptions C05_lhs_leibniz_refuted_dd.
 
-(* the other assignment forms as the code reads them (augmented assignment, no assignment, DE with `+=`, Leibniz before D154) *)
+(* the other assignment forms as the code reads them (augmented assignment, no assignment, DE with `+=`); last conjunct:
+   before D154 (model switch leib = false) the third notation raised TypeError on Python 3.12 *)
 Theorem C05_classify_other_forms :
   classify (s2l "x += 2*r") = CEqn {| e_lhs := s2l "x"; e_key := s2l "x"; e_de := false; e_rhs := s2l "2*r"; e_asg := s2l "+=" |} /\
   classify (s2l "x -= 1") = CEqn {| e_lhs := s2l "x-"; e_key := s2l "x-"; e_de := false; e_rhs := s2l "1"; e_asg := ["="] |} /\
   classify (s2l "r + 1") = CEqn {| e_lhs := s2l "x"; e_key := s2l "x"; e_de := false; e_rhs := s2l "r + 1"; e_asg := ["="] |} /\
-  classify (s2l "d/dt * x += r") = CValueError /\ classify (s2l "dx/dt = r") = CRaises.
+  classify (s2l "d/dt * x += r") = CValueError /\
+  classify (s2l "dx/dt = r") = CEqn {| e_lhs := s2l "x"; e_key := s2l "x"; e_de := true; e_rhs := s2l "r"; e_asg := ["="] |} /\
+  classify_gen false (s2l "dx/dt = r") = CRaises.
 Proof. exact classify_other_forms. Qed.
 Print Assumptions C05_classify_other_forms.
 
